@@ -80,6 +80,8 @@ impl Savepoint {
 
 impl Drop for Savepoint {
     fn drop(&mut self) {
+        #[cfg(redb_verif)]
+        crate::verif::pause("X.savepoint_drop");
         if self.ephemeral {
             self.transaction_tracker
                 .deallocate_savepoint(self.get_id(), self.get_transaction_id());
